@@ -98,10 +98,10 @@ Proof.
   intros o [].
 Qed.
 
-Lemma sync_loop_ret_errs U L c has : forall blocks b n ops up errs cids ck res,
-  sync_loop std_upload U L c has blocks b n ops up errs cids ck = Some res -> r_ret res = true -> errs = 0%nat.
+Lemma sync_loop_ret_errs U L c has : forall blocks b n ops up errs cids ck ords res,
+  sync_loop std_upload U L c has blocks b n ops up errs cids ck ords = Some res -> r_ret res = true -> errs = 0%nat.
 Proof.
-  induction blocks as [|id r IH]; intros b n ops up errs cids ck res H Hr; simpl in H.
+  induction blocks as [|id r IH]; intros b n ops up errs cids ck ords res H Hr; simpl in H.
   - destruct (tick (c_fault c) n); inversion H; subst; simpl in Hr; try discriminate;
       apply Nat.eqb_eq in Hr; exact Hr.
   - destruct (linfo_of L id) as [i|]; [|discriminate]. destruct (ublock U id) as [bl|]; [|discriminate].
@@ -112,7 +112,8 @@ Proof.
     destruct (bhas b (id, FMeta)); [eapply IH; eauto|].
     destruct (overlap_gate L c b (S n) ck i) as [|n1 ck']; [inversion H; subst; simpl in Hr; discriminate|].
     destruct (c_lbl c) as [lbl|].
-    + destruct (upload_ops std_upload U id (map fst (b_chunks bl)) (hd 0%N cids) lbl) as [l|]; [|discriminate].
+    + destruct (c_conc c && match c_fault c with FailAt _ => true | _ => false end); [discriminate|].
+      destruct (upload_ops std_upload U id _ (hd 0%N cids) lbl) as [l|]; [|discriminate].
       destruct (run_ups (c_fault c) n1 b [] l) as [[[b' n'] done] u]. destruct u.
       * eapply IH; eauto.
       * destruct (c_ooo c); [|inversion H; subst; simpl in Hr; discriminate].
@@ -175,12 +176,12 @@ Proof.
   - intros o Ho. apply in_app_or in Ho as [Ho|Ho]; [apply K1; exact Ho|apply H8; exact Ho].
 Qed.
 
-Lemma sync_loop_sound U L c has : wf_univ U -> forall blocks b n ops up errs cids ck res,
+Lemma sync_loop_sound U L c has : wf_univ U -> forall blocks b n ops up errs cids ck ords res,
   binv U b ->
-  sync_loop std_upload U L c has blocks b n ops up errs cids ck = Some res ->
+  sync_loop std_upload U L c has blocks b n ops up errs cids ck ords = Some res ->
   loop_post U L c has blocks b ops up res.
 Proof.
-  intros Hwf. induction blocks as [|id r IH]; intros b n ops up errs cids ck res Hb H; simpl in H.
+  intros Hwf. induction blocks as [|id r IH]; intros b n ops up errs cids ck ords res Hb H; simpl in H.
   - assert (E : exists m ret, res = mksres b ops m ret /\ (forall l, m = Some l -> l = up)).
     { destruct (tick (c_fault c) n); inversion H; subst; eexists; eexists; split; try reflexivity;
         intros l Hl; inversion Hl; reflexivity. }
@@ -210,7 +211,8 @@ Proof.
       - right. split; [reflexivity|right; exact Hhas]. }
     destruct (overlap_gate L c b (S n) ck i) as [|n1 ck']; [inversion H; subst; apply loop_post_stop|].
     destruct (c_lbl c) as [lbl|] eqn:Hlbl.
-    + destruct (upload_ops std_upload U id (map fst (b_chunks bl)) (hd 0%N cids) lbl) as [l|] eqn:Hl; [|discriminate].
+    + destruct (c_conc c && match c_fault c with FailAt _ => true | _ => false end); [discriminate|].
+      destruct (upload_ops std_upload U id _ (hd 0%N cids) lbl) as [l|] eqn:Hl; [|discriminate].
       destruct (run_ups (c_fault c) n1 b [] l) as [[[b' n'] done] u] eqn:Hrun.
       destruct (run_ups_spec _ _ _ _ _ _ _ _ _ Hrun) as [k [Hd [Hb' Hfull]]]. simpl in Hd. subst done b'.
       pose proof (upload_ops_shape U id _ _ lbl l Hl) as [Hups Hlbls].
@@ -261,6 +263,12 @@ Definition mf_next (old : option (list N)) (res : sres) : option (list N) :=
 Definition recorded_visible (b : bucket) (mf : option (list N)) : Prop :=
   forall id, In id (mf_list mf) -> bhas b (id, FMeta) = true.
 
+Lemma filter_all_true {A} (f : A -> bool) (l : list A) : (forall x, In x l -> f x = true) -> filter f l = l.
+Proof.
+  induction l as [|x r IH]; intros H; simpl; [reflexivity|].
+  rewrite (H x (or_introl eq_refl)), IH; [reflexivity|]. intros y Hy. apply H. right; exact Hy.
+Qed.
+
 Lemma sync_sound U L c mf b res :
   wf_univ U -> binv U b -> sync U L c mf b = Some res ->
   let b' := bapply_ops b (r_ops res) in
@@ -274,11 +282,20 @@ Lemma sync_sound U L c mf b res :
   /\ forallb (is_up key obj) (r_ops res) = true.
 Proof.
   intros Hwf Hb H. unfold sync in H. rewrite upload_phases_std in H.
+  destruct ((match c_corrupt c with [] => false | _ => true end) && negb (c_skip c)) eqn:Hcor.
+  { inversion H; subst res. simpl. repeat split; try reflexivity; try exact I; try discriminate.
+    - intros id Hin. left. apply memN_In. exact Hin.
+    - intros k Hk. exact Hk.
+    - intros o []. }
+  pose proof H as H0.
   apply (sync_loop_sound U L c _ Hwf) in H; [|exact Hb].
   destruct H as [ops' [H1 [H2 [H3 [H4 [H5 [H6 [H7 H8]]]]]]]]. simpl in H1. cbv zeta. rewrite H1. rewrite <- H2.
   fold (mf_list mf) in *.
   repeat split; try assumption.
-  - intros Hr id i Hin Hl He. eapply H6; eauto. apply sort_blocks_In. exact Hin.
+  - intros Hr id i Hin Hl He.
+    pose proof (sync_loop_ret_errs U L c _ _ _ _ _ _ _ _ _ _ _ H0 Hr) as Hlen.
+    destruct (c_corrupt c) as [|x xs] eqn:Hcc; [|discriminate].
+    eapply H6; eauto. apply sort_blocks_In. rewrite filter_all_true; [exact Hin|]. reflexivity.
   - intros id Hin. unfold mf_next in Hin. destruct (r_meta res) as [l|] eqn:Hm.
     + destruct (H7 l eq_refl) as [new [Hn1 Hn2]]. simpl in Hn1. subst l. apply Hn2. exact Hin.
     + left. apply memN_In. exact Hin.
